@@ -59,6 +59,7 @@ typedef struct {
     uint8_t *ptr;      /* pointer handed out */
     size_t size;       /* requested size */
     int live;
+    unsigned born;     /* number of the library call that allocated it */
 } Blk;
 
 static __thread Blk blks[MAXBLK];
@@ -66,7 +67,8 @@ static __thread int nblk;
 static __thread int in_lib;           /* only library calls are tracked */
 static __thread int fail_next;        /* fail the n-th calloc made by the library in this call (0: none) */
 static __thread int fail_hit;         /* an injected failure was actually delivered */
-static __thread int c_na, c_nf, c_nz, c_badfree, c_fz;   /* per-call counters */
+static __thread int c_na, c_nf, c_nz, c_nzo, c_badfree, c_fz;   /* per-call counters */
+static __thread unsigned call_seq;   /* library calls made so far */
 static __thread int live_blocks;
 
 void *__real_calloc(size_t, size_t);
@@ -100,7 +102,7 @@ static void *lib_alloc(size_t size, size_t align, int zero)
     Blk *b = &blks[nblk++];
     b->map = m; b->maplen = pages * PAGE;
     b->ptr = m + pages * PAGE - rounded;    /* flush against the guard (up to the alignment) */
-    b->size = size; b->live = 1;
+    b->size = size; b->live = 1; b->born = call_seq;
     /* slack before the block is poisoned: an underflow write shows at free */
     memset(m, 0xEE, (size_t)(b->ptr - m));
     if (!zero) memset(b->ptr, 0xA5, size);
@@ -169,6 +171,8 @@ void __wrap_free(void *p)
             size_t nz = 0;
             for (size_t j = 0; j < b->size; j++) nz += (b->ptr[j] != 0);
             c_nz += (int)nz;
+            /* a block that outlived the call that allocated it is object state */
+            if (b->born != call_seq) c_nzo += (int)nz;
             /* slack must be untouched */
             for (uint8_t *q = b->map; q < b->ptr; q++) if (*q != 0xEE) c_fz++;
             for (uint8_t *q = b->ptr + b->size; q < b->map + b->maplen; q++) if (*q != 0) c_fz++;
@@ -556,7 +560,8 @@ void __attribute__((noinline)) drv_mark_end(void) { __asm__ volatile("" ::: "mem
 /* per-call prologue/epilogue */
 static void call_begin(void)
 {
-    c_na = c_nf = c_nz = c_badfree = c_fz = 0;
+    c_na = c_nf = c_nz = c_nzo = c_badfree = c_fz = 0;
+    call_seq++;
     fail_hit = 0;
     arenas_snapshot();
     if (!fast_mode) { objects_snapshot(); objects_mask(); }
@@ -572,7 +577,7 @@ static void call_end(void)
 }
 static void log_alloc(const uint8_t *out, size_t outlen)
 {
-    jint("na", c_na); jint("nf", c_nf); jint("nz", c_nz);
+    jint("na", c_na); jint("nf", c_nf); jint("nz", c_nz); jint("nzo", c_nzo);
     jint("badfree", c_badfree + c_fz); jint("lv", live_blocks);
     jint("stray", arenas_stray(out, outlen) + (fast_mode ? 0 : objects_stray()));
 }
